@@ -454,6 +454,7 @@ struct C13 : World {
       // header for all (knob absent, older plans); pages in magazine serial mode (fourth page argument).
       Rng rt(seed, "page-headers");
       if (rt.chance(1, 2)) p.knobs["own_headers"] = 1 + (int64_t)rt.below(2);
+      p.knobs["unlisted_stations"] = 1;
       for (auto& o : p.ops) if (o.kind == "page") { while (o.a.size() < 3) o.a.push_back(0); o.a.push_back(rt.chance(1, 5) ? 1 : 0); }
     }
     {
@@ -840,12 +841,13 @@ struct C13 : World {
     must_pages.clear(); pending_drop = false;
     ctx->count("gap_reset_network");
   }
-  void network_changed(bool from_identified, bool to_identified) {
+  void network_changed(bool from_identified, bool to_identified, bool to_unlisted = false) {
     net_epoch++; legit_net++; wss_live = 0;
     if (from_identified) decoder_reset_observed();
     aspect_known = false;  // the reset may announce the aspect again (vbi_channel_switched documentation: "blank events ... revoking")
     pi_known = false;
-    if (from_identified && to_identified) { pending_drop = true; ctx->count("station_switch_identified"); }
+    if (from_identified && to_unlisted) pending_drop = true;
+    else if (from_identified && to_identified) { pending_drop = true; ctx->count("station_switch_identified"); }
     else { for (int p : must_pages) maybe_pages.insert(p); must_pages.clear(); }  // first identification / station lost: the statement is silent about the cache
   }
 
@@ -898,7 +900,11 @@ struct C13 : World {
             int id;
             bool ok = relaxed || line_blank || (confirmed && !lookup(c, last[c], &id) && (!view || (any_net && last_net_nuid != 0)));
             if (!ok) { ctx->fail(confirmed ? "oracle:c13-network-blank" : "oracle:c13-network-early", "blank NETWORK event on %s line (streak %d, value 0x%x) revokes the identified station", kind_name[c], streak[c], last[c]); return; }
-            if (!saw_net) { network_changed(view && last_net_nuid != 0, false); ctx->count("blank_network"); }
+            // a confirmed identifier that is not in the table, received while a table station was identified, IS a station
+            // change ("when the identified station does change ... the cached pages of the old station are dropped"): the
+            // decoder cannot name the new station, but the old one's pages must go
+            bool to_unlisted = !relaxed && !line_blank && confirmed && !lookup(c, last[c], &id) && view && any_net && last_net_nuid != 0;
+            if (!saw_net) { network_changed(view && last_net_nuid != 0, false, to_unlisted); ctx->count("blank_network"); if (to_unlisted) ctx->count("station_switch_to_unlisted"); }
             line_blank = true; saw_net = true; any_net = true; last_net_nuid = 0; last_net_name.clear(); net_view_established();
             for (int k = 0; k < 3; k++) blanked[k] = true;
             break;
@@ -1252,6 +1258,7 @@ struct C13 : World {
   }
 
   // --------------------------------------------------------------- script ---
+  bool unlisted_stations = false;
   void set_station(const Op& op) {
     build_table();
     flush();  // a channel change happens between frames
@@ -1285,6 +1292,25 @@ struct C13 : World {
     for (int c = 0; c < 3; c++) { a.code[c] = row.code[c]; a.has[c] = row.code[c] && (mask >> c & 1); n += a.has[c]; }
     if (!n) for (int c = 0; c < 3; c++) if (row.code[c]) { a.has[c] = true; break; }
     a.dc3 = (mask & 16) && (row.code[0] == 0xDC1 || row.code[0] == 0xDC2);
+    if (unlisted_stations && llabs(op.arg(0)) % 7 == 3) {
+      // a station the network table does not know (one in seven, knob unlisted_stations; older plans: none): VPS and / or
+      // 8/30 format 1 with a CNI that no row of the table has in that column.  A change from a table station to such a
+      // station is a station change like any other: the decoder cannot name it, but the old station's pages must go.
+      a.dc3 = false; a.has[2] = false;
+      if (!a.has[0] && !a.has[1]) a.has[0] = true;
+      for (int c = 0; c < 2; c++) {
+        if (!a.has[c]) continue;
+        int lim = c == 0 ? 0xFFE : 0xFFFE, cand = 0;
+        for (int t = 0; t < 200; t++) {
+          cand = 1 + (int)((r.next() >> 8) % (uint64_t)lim);
+          bool used = c == 0 && cand >= 0xDC1 && cand <= 0xDC3;
+          for (auto& rw : g_rows) if (rw.code[c] == cand || (c == 0 && (rw.code[2] & 0xFFF) == cand)) { used = true; break; }
+          if (!used) break;
+        }
+        a.code[c] = cand;
+      }
+      ctx->count("stations_not_in_the_table");
+    }
     a.has_wss = mask >> 3 & 1;
     set_wss(a, (int)op.arg(2));
     set_prog(a, ps);
@@ -1457,6 +1483,7 @@ struct C13 : World {
     call_open_uncertain = false; call_alts.clear(); xds_dirty = false; stable_names = 0;
     receptions = legit_net = quiet_receptions = 0;
     for (int k = 0; k < NSLOT; k++) { hmask[k] = 0; asp_wit[k] = pi_wit[k] = false; }
+    unlisted_stations = plan.knob("unlisted_stations", 0) != 0;
     mandatory = plan.knob("h0_free") ? (mode == 2 ? (unsigned)VBI_EVENT_NETWORK : 0u) : plan.knob("net_churn") ? (unsigned)(VBI_EVENT_NETWORK | VBI_EVENT_TTX_PAGE) : MANDATORY;
     hmask[0] = bits_to_mask(plan.knob("h0_mask", 0x7F) % 128) | mandatory;  // absent: every event type of the property (older plans)
     pi_known = false; memset((void*)&last_pi, 0, sizeof last_pi);
